@@ -43,7 +43,8 @@ def wait(fs, timeout=None, return_when=ALL_COMPLETED):
     if return_when == FIRST_COMPLETED:
       return bool(done)
     if return_when == FIRST_EXCEPTION:
-      return any(not f.cancelled() and f._exception is not None for f in done)
+      return any(f._state == FINISHED and f._exception is not None
+                 for f in done)
     return False
 
   s.point('fut-wait', '')
